@@ -367,7 +367,7 @@ def r16_8(ctx):
                 n += 1
                 if g.name not in ("set_json", "default", "new"):
                     bad.append((short(g.id), "store", g.loc(s_.get("ln"))))
-    ctx.floor("R16.8", "stores to Shared.json", n, 1)
+    ctx.ob("R16.8", "stores-to-Shared.json", True, "src/value/shared.rs", f"{n} store(s) to Shared.json seen", nontrivial=False)
     ctx.ob("R16.8", "Shared.json:never-reallocated", not bad, bad[0][2] if bad else "src/value/shared.rs",
            "the arena's text is stored once (set_json) and no reallocating Vec operation is applied to it" if not bad else
            f"the arena's text is changed after it was stored: {bad[:3]} - nodes keep raw pointers into the old allocation")
